@@ -35,7 +35,38 @@ status, fatal stop), step machine spec/Driver_MC.tla.
     (the channel counts include the error lines of intermediate passes, the summary and status follow the model).
     quick: every one-file run + a seeded sample of the two-file runs (3000), thorough: all 24 k.
 
-Bounds / not covered: line classes are fixed representative lines (unknown mnemonic, `ds 0`, include of a missing
+    EXPECT BLOCKS AROUND JUMP ERRORS (Driver_MC_JumpX.cfg / Driver_Gen_JumpX.cfg; added after a seeded change went
+    unnoticed: JmpErrors++ moved in front of FindAndTakeExpectError, so that under -Y an EXPECTed - never written, never
+    counted - jump error was still discounted from ErrorCount when a label moved later in the pass: "4294967295
+    errors", status 2, no code file, not one diagnostic).  The covers above had EXPECT blocks (number 1200 only) and
+    jump errors under -Y, but never an EXPECT block around a jump error: a forward branch never raises its error in
+    pass 1, so its block fails there, and an unannounced error of pass 1 ends the file.  New dimension = what the
+    announcement of a block is for x the jump family x -Y x pending repass x a label that moves later in the pass:
+    line classes bjmp (backward branch out of range: error 1370 in EVERY pass, remembered in JmpErrors iff no repass
+    is pending), bpage (constant target on another page: error 1910, the second number of the family; 65C19 `jsb`),
+    shrink (a label that moves in pass 2 without any diagnostic of its own: forward reference to a zero-page cell),
+    and a wrapper on every jump class: bare | EXPECT <its number> .. ENDEXPECT | EXPECT <the other jump number> ..
+    ENDEXPECT; `undef` supplies a genuine error that first shows in pass 2 (a discount of too much would cancel it).
+    Driver.tla also learnt where labels stand (Discover: a statement that emits no code in pass 2 - undef - moves the
+    NEXT label, e.g. the target in front of a bjmp); Diag.tla WrJumpErrorN states the order of the filters
+    (ExpectedJumpNotRemembered).  (M) every sequence of <= 3 (thorough 4) of the 13 classes x -Y x -maxerrors {0,2},
+    same invariants as Driver_MC_Jump.cfg.  (G) the cover by TEXT (view = the lines themselves, since here the place of
+    every label matters), rendered for 6502 / 68HC11 / 65C19 (vlib/drvjumpx.py): quick a seeded sample of 2500 of the
+    7.4 k runs with a new class (about 3 % of them expose the seeded change), thorough all of them plus a sample of
+    25000 of the 93 k four-line runs.  Hook traces of the runs without -Y go through Driver_Trace like the others.
+
+    WHAT A BLOCK ANNOUNCES x THE FILTERS BEHIND THE EXPECT TEST (Driver_MC_ExpN.cfg / Driver_Gen_ExpN.cfg; the same
+    dimension seen from the other filters of WrXErrorPos - the seeded change was a reordering of that chain): `expect`
+    with f = "warn" announces the internal warning 290 of class warn; <= 4 classes out of {ok, warn, err, fwd, expect
+    1200, expect 290, endexpect} x -Werror x -w x -maxerrors {0,2}: an announced warning is consumed before -w and
+    -Werror are looked at (Diag.tla ExpectedFirst), a block for 290 does not swallow 1200 and vice versa.  Transition
+    cover, Z80 / 8051; quick: seeded sample of 1000 of the 1.5 k runs that contain `expect 290`, thorough all.
+    Mutation tried: the -w test moved in front of FindAndTakeExpectError - reported (3 % of the runs).
+
+Bounds / not covered: a block holds exactly one statement of the jump family (a mover INSIDE a block is not generated);
+EXPECT lists of several numbers and EXPECT of other error numbers are not generated; EXPECT of a FATAL number is not
+generated either (probing showed that `expect 10001` / `include "missing.inc"` / `endexpect` makes asl loop forever:
+the swallowed fatal error lets INCLUDE go on with a file that was never opened - a C03 matter, reported there); line classes are fixed representative lines (unknown mnemonic, `ds 0`, include of a missing
 file, ERROR/WARNING/FATAL); +G, -l (listing to stdout
 replaces the error channel), I/O errors (unwritable output, disk full) and message languages other than C are not
 exercised; at most 2 files and 2 passes in the model.  Renderer, tokeniser and comparison in Python are trusted.
@@ -49,7 +80,8 @@ reported as VIOLATION by the quick tier: -Werror reclassification disabled; `ret
 `unlink(OutName)` after errors removed; `exit(3)` -> `exit(2)`; -maxerrors test `>=` -> `>`; -w also swallowing
 errors; user WARNING counted as error; summary printing errors+warnings; GlobErrFlag set only for one-pass files
 (needs the `undef` class: error in pass 2); an EXPECTed error still counted; the -Y guard of the jump-error discount
-turned into `ThrowErrors || ...` (discount without -Y), into "never" (no discount with -Y), JmpErrors never counted.  Trace corruptions (counter, class,
+turned into `ThrowErrors || ...` (discount without -Y), into "never" (no discount with -Y), JmpErrors never counted;
+JmpErrors++ moved in front of the EXPECT filter (needs the JumpX cover: 60-80 VIOLATION lines in the quick tier).  Trace corruptions (counter, class,
 kept flag, exit status, IfAsm/stale pointers at file_begin, CPU at pass_begin, a removed pass_begin) are rejected
 by Driver_Trace.
 """
@@ -57,13 +89,16 @@ import json
 import os
 import shutil
 
-from vlib import aslrun, build, drvrender, drvrun, drvtrace, tlc
+from vlib import aslrun, build, drvjumpx, drvrender, drvrun, drvtrace, tlc
 from vlib.common import CheckError, Phase, log, pmap, rng
 from vlib.report import Report
 
 PID = "C02"
 COLLECT = (".p", ".log", ".txt", ".lst")
 QUICK_JUMP = 3000    # quick tier: every one-file run of the jump cover, a seeded sample of the two-file runs
+QUICK_JUMPX = 2500   # quick tier: seeded sample of the runs of the JumpX cover (EXPECT blocks around jump errors)
+THOROUGH_JUMPX4 = 25000   # thorough tier: seeded sample of its four-line runs (all runs of <= 3 lines are replayed)
+QUICK_EXPN = 1000    # quick tier: seeded sample of the runs of the ExpN cover that contain `expect 290`
 QUICK_SMALL = 9000   # quick tier: seeded sample of the cover if it is larger than this
 BIG = 255            # a REPT burst of at least this many lines is "big" (sampled in the quick tier)
 
@@ -81,7 +116,7 @@ def make_job(tr, rv, dialect, events=None):
     o = dict(tr["o"])
     o.update(rv)
     names = ["f%d.asm" % (i + 1) for i in range(len(tr["files"]))]
-    files = {n: drvrender.render_file(ls, dialect, i + 1) for i, (n, ls) in enumerate(zip(names, tr["files"]))}
+    files = {n: drvjumpx.render_file(ls, dialect, i + 1) for i, (n, ls) in enumerate(zip(names, tr["files"]))}
     big = is_big(tr)
     return {"files": files, "argv": drvrender.render_argv(o, names), "collect": COLLECT,
             "events": events, "timeout": 180 if big else 30, "_o": o, "_names": names}
@@ -134,7 +169,9 @@ def kept_flags(job, res, trace):
 
 def model_checks(rep, tier):
     runs = [("Driver_MC", "Driver_MC.cfg" if tier == "quick" else "Driver_MC4.cfg"),
-            ("Driver_MC", "Driver_MC_2f.cfg"), ("Driver_MC", "Driver_MC_Jump.cfg"), ("Diag_MC", "Diag_MC.cfg")]
+            ("Driver_MC", "Driver_MC_2f.cfg"), ("Driver_MC", "Driver_MC_Jump.cfg"), ("Diag_MC", "Diag_MC.cfg"),
+            ("Driver_MC", "Driver_MC_JumpX.cfg" if tier == "quick" else "Driver_MC_JumpX4.cfg"),
+            ("Driver_MC", "Driver_MC_ExpN.cfg")]
     if tier != "quick":
         runs.append(("Diag_MC", "Diag_MC_Wrap8.cfg"))      # closed forms also describe wrapping counters
     def one(mc):
@@ -164,9 +201,11 @@ def main(tier):
     model_checks(rep, tier)
 
     # (G) ---------------------------------------------------------------------------------------
-    with Phase("TLC Driver_Gen cover + jump cover"):
-        cov, covj = pmap(lambda c: tlc.must(tlc.run("Driver_Gen", c, workers=1, timeout=1500, mem="8g"), "Driver_Gen(%s)" % c),
-                         ["Driver_Gen.cfg" if tier == "quick" else "Driver_Gen4.cfg", "Driver_Gen_Jump.cfg"], workers=2)
+    with Phase("TLC Driver_Gen cover + jump covers"):
+        cov, covj, covx, covn = pmap(
+            lambda c: tlc.must(tlc.run("Driver_Gen", c, workers=1, timeout=1500, mem="8g"), "Driver_Gen(%s)" % c),
+            ["Driver_Gen.cfg" if tier == "quick" else "Driver_Gen4.cfg", "Driver_Gen_Jump.cfg",
+             "Driver_Gen_JumpX.cfg" if tier == "quick" else "Driver_Gen_JumpX4.cfg", "Driver_Gen_ExpN.cfg"], workers=4)
     rep.model("Driver_Gen(cover)", cov)
     trs = [b for (tag, b) in cov.printed if tag == "TR"]
     if not trs:
@@ -225,6 +264,43 @@ def main(tier):
         # hook traces only without -Y: Driver_Trace replays the counters without the discount
         ev = "file,diag,stmt" if (not t["o"]["throw"] and i % 3 == 0) else None
         jobs.append((t, make_job(t, report_vector(rr), dialect, events=ev), dialect))
+    # EXPECT blocks around jump errors (bjmp / bpage / shrink, wrappers): the cover by text; only its runs with a class
+    # the jump cover above does not have
+    rep.model("Driver_Gen(jumpx cover)", covx)
+    xtrs = [b for (tag, b) in covx.printed if tag == "TR" and any(drvjumpx.has_new(f) for f in b["files"])]
+    if not xtrs:
+        raise CheckError("Driver_Gen_JumpX printed no behaviours")
+    navail = len(xtrs)
+    if tier == "quick":
+        if len(xtrs) > QUICK_JUMPX:
+            rng("c02/jumpx").shuffle(xtrs)
+            xtrs = xtrs[:QUICK_JUMPX]
+    else:
+        short = [t for t in xtrs if len(t["files"][-1]) <= 3]
+        four = [t for t in xtrs if len(t["files"][-1]) > 3]
+        rng("c02/jumpx").shuffle(four)
+        xtrs = short + four[:THOROUGH_JUMPX4]
+    rep.part("generation_jumpx", behaviours=navail, run=len(xtrs))
+    for i, t in enumerate(xtrs):
+        rr = rng("c02/jumpx/%d" % i)
+        ds = drvjumpx.dialects_for(t["files"])
+        dialect = ds[i % len(ds)]
+        ev = "file,diag,stmt" if (not t["o"]["throw"] and i % 3 == 0) else None
+        jobs.append((t, make_job(t, report_vector(rr), dialect, events=ev), dialect))
+    # what a block announces (expect 1200 | expect 290) x -w x -Werror x -maxerrors: only the runs with `expect 290`
+    rep.model("Driver_Gen(expn cover)", covn)
+    ntrs = [b for (tag, b) in covn.printed if tag == "TR" and any(drvjumpx.has_new(f) for f in b["files"])]
+    if not ntrs:
+        raise CheckError("Driver_Gen_ExpN printed no behaviours")
+    navail = len(ntrs)
+    if tier == "quick" and len(ntrs) > QUICK_EXPN:
+        rng("c02/expn").shuffle(ntrs)
+        ntrs = ntrs[:QUICK_EXPN]
+    rep.part("generation_expn", behaviours=navail, run=len(ntrs))
+    for i, t in enumerate(ntrs):
+        rr = rng("c02/expn/%d" % i)
+        dialect = "z80" if i % 2 == 0 else "8051"
+        jobs.append((t, make_job(t, report_vector(rr), dialect, events="file,diag,stmt" if i % 3 == 0 else None), dialect))
     with Phase("replay %d runs" % len(jobs)):
         results = drvrun.run_many(bld, [j for (_, j, _) in jobs])
     execs, owners, late, late_owners = [], [], [], []
@@ -281,7 +357,10 @@ def main(tier):
              "pending EXPECT x earlier-file-failed; 1-2 files of <= 3 (thorough 4) line classes), each printed by TLC "
              "with Outcome(opts, files); REPT bursts >= 255 lines: every (boundary class, option class) once plus a "
              "seeded sample in the quick tier, all in the thorough tier; rendered in Z80/8051 with seed-chosen report "
-             "options; distinct = distinct (sources, argv); non-trivial = contains a line class other than ok",
+             "options; the jump covers (Driver_Gen_Jump: 1-2 files, Driver_Gen_JumpX: EXPECT blocks around jump errors, "
+             "cover by text) in 6502 / 68HC11 / 65C19, Driver_Gen_ExpN (what a block announces x -w x -Werror), "
+             "quick tier: seeded samples; "
+             "distinct = distinct (sources, argv); non-trivial = contains a line class other than ok",
         exhaustive=False)
 
 
@@ -292,7 +371,7 @@ def replay(path):
     argv = open(os.path.join(path, "argv")).read().split()
     dialect = open(os.path.join(path, "dialect")).read().strip() if os.path.exists(os.path.join(path, "dialect")) else "z80"
     names = [a for a in argv if a.endswith(".asm")]
-    files = {n: drvrender.render_file(ls, dialect, i + 1) for i, (n, ls) in enumerate(zip(names, tr["files"]))}
+    files = {n: drvjumpx.render_file(ls, dialect, i + 1) for i, (n, ls) in enumerate(zip(names, tr["files"]))}
     res = drvrun.run_job(bld, {"files": files, "argv": argv, "collect": COLLECT, "timeout": 180})
     log("replay: asl %s -> rc=%s\nstdout tail:\n%s\nstderr tail:\n%s" % (" ".join(argv), res.rc, res.out[-1500:], res.err[-1500:]))
     log("code files present: %s" % sorted(k for k in res.files if k.endswith(".p")))
